@@ -35,7 +35,7 @@ LEVEL_TEXT = "Rides on the C02 poll scenarios and on real ThreadRunner deploymen
 LEVEL_NOTE = 'Trusted: the transition log taken at _atomic_status_transition/_register_new_invocations (instance-level wrappers), simkit scheduler, reference lifecycle. Simulated timestamps are unique, so the SQLite history primary key never collides (real-clock collisions are out of reach).'
 MINIMIZE = "schedule"
 RULE = (
-    "poll: the C02 scenarios (seeded pollers / duplicates / meddler) with late history writers; deploy: 1-2 ThreadRunners "
+    "poll: the C02 scenarios (seeded pollers / duplicates / meddler) with late history writers (in memory pre-empted at line level inside the state backend); deploy: 1-2 ThreadRunners "
     "executing 1-3 generated programs (depth <= 2, retries, failures, groups) with an optional early stop that kills and reroutes. "
     "Non-trivial = at least one history writer ran after a later status change of the same invocation had already been made, or a "
     "kill / retry / reroute / recovery transition occurred; distinct = distinct hash of context-switch sites."
